@@ -502,7 +502,93 @@ func RunC15Scenario(sc *Scenario) (vd *Verdict) {
 
 
 // readback pages through one of hub A's read routes and compares what parses back with the model.
+// queryback asks hub A's POST /query for the outgoing relations of several start entities at once, page by page
+// through the continuation tokens of the answer, and compares the union with the graph of the latest versions.
+func (r *C15Run) queryback(op *Op) *Violation {
+	var starts []string
+	for _, x := range op.A {
+		starts = append(starts, fmt.Sprint(x))
+	}
+	want := map[string]bool{}
+	for _, s := range starts {
+		for pt := range r.MA.Out(markerToFull(s), "*", []string{"src"}) {
+			want[markerToFull(s)+" "+pt[0]+" "+pt[1]] = true
+		}
+	}
+	var curies []string
+	for _, s := range starts {
+		curies = append(curies, r.A.curie(s))
+	}
+	got := map[string]int{}
+	body := map[string]any{"startingEntities": curies, "predicate": "*", "inverse": false, "datasets": []string{"src"}, "limit": op.Limit}
+	for page := 0; page < 300; page++ {
+		b, _ := json.Marshal(body)
+		code, resp := r.A.Do("POST", "/query", nil, b)
+		r.Stats["query_pages"]++
+		if code != 200 {
+			return viol("C15", "readback", fmt.Sprintf("query-rejected:%d", code), "POST /query %s was answered %d %s", b, code, clip(string(resp)))
+		}
+		var parts []json.RawMessage
+		if err := json.Unmarshal(resp, &parts); err != nil || len(parts) < 2 {
+			return viol("C15", "readback", "query-answer-does-not-parse", "POST /query %s: %v; body %s", b, err, clip(string(resp)))
+		}
+		var rows [][]json.RawMessage
+		_ = json.Unmarshal(parts[1], &rows)
+		for _, row := range rows {
+			if len(row) != 3 {
+				continue
+			}
+			var st, pr string
+			var ent struct {
+				ID string `json:"id"`
+			}
+			_ = json.Unmarshal(row[0], &st)
+			_ = json.Unmarshal(row[1], &pr)
+			_ = json.Unmarshal(row[2], &ent)
+			got[r.A.expand(st)+" "+r.A.expand(pr)+" "+r.A.expand(ent.ID)]++
+		}
+		var conts []string
+		if len(parts) >= 3 {
+			_ = json.Unmarshal(parts[2], &conts)
+		}
+		if len(conts) == 0 || op.Limit == 0 {
+			break
+		}
+		if page == 299 {
+			return viol("C15", "readback", "query-paging-does-not-end", "POST /query over %v with limit %d still hands out continuation tokens after 300 pages", starts, op.Limit)
+		}
+		body = map[string]any{"continuations": conts, "limit": op.Limit}
+	}
+	for k := range want {
+		if got[k] == 0 {
+			return viol("C15", "readback", "query-pages-miss-a-relation", "POST /query over start entities %v (outgoing, any predicate, limit %d) read through its continuation tokens lacks %s; got %v", starts, op.Limit, k, sortedKeysInt(got))
+		}
+	}
+	for k, n := range got {
+		if !want[k] {
+			return viol("C15", "readback", "query-pages-extra-relation", "POST /query over start entities %v (limit %d) returned %s, which the latest versions do not imply", starts, op.Limit, k)
+		}
+		if n > 1 {
+			return viol("C15", "readback", "query-pages-repeat-a-relation", "POST /query over start entities %v (limit %d) read through its continuation tokens returned %s %d times", starts, op.Limit, k, n)
+		}
+	}
+	r.Stats["querybacks_checked"]++
+	return nil
+}
+
+func sortedKeysInt(m map[string]int) []string {
+	var l []string
+	for k := range m {
+		l = append(l, k)
+	}
+	sort.Strings(l)
+	return l
+}
+
 func (r *C15Run) readback(op *Op) *Violation {
+	if op.S == "query" {
+		return r.queryback(op)
+	}
 	limit := op.Limit
 	kind := op.S // entities | changes | latest
 	var got []string
